@@ -7,6 +7,7 @@ Oracle : field-by-field comparison with the system in memory, with format-precis
 """
 import io
 import os
+import re
 import tempfile
 
 import numpy as np
@@ -333,6 +334,14 @@ def run_case(params):
     b = harness.Batch()
     for j in range(params['n']):
         case = gen_system(rnd, params['kind'])
+        if params['kind'] == 'small' and params['batch'] % 8 == 5:
+            # atom names without any letter ('123'): drawn in every eighth batch only and from a generator of their own, so that
+            # the other batches are what they were; both readers refuse such a name (known finding, see known_findings.json)
+            r2 = harness.rng('C16-letterless', params['seed'], params['batch'], j)
+            if r2.random() < 0.3:
+                m = r2.choice(case['mols'])
+                m['atoms'][r2.randrange(len(m['atoms']))][1]['atomname'] = r2.choice(['123', '1', "2'", '5*'])
+                case['letterless'] = True
         total = sum(len(m['atoms']) for m in case['mols'])
         maxdeg = 0
         for m in case['mols']:
@@ -354,6 +363,10 @@ def run_case(params):
                     raise         # an error of the harness/oracle is never a violation
                 import traceback
                 p = ('%s/exception/%s' % (fmt, type(e).__name__), {'error': repr(e), 'trace': traceback.format_exc()[-700:]})
+                if case.get('letterless') and isinstance(e, ValueError) and str(e).startswith('No alpha') and \
+                        re.search(r'(pdb|gro)\.py", line \d+, in (_atom|read_gro)\b', traceback.format_exc()):
+                    # only this mechanism: the reader's element guess (utils.first_alpha) raised for a name without letters
+                    p = ('read/atom-name-without-letter', dict(p[1], format=fmt))
             b.hits += 1
             if p:
                 key = p[0]
